@@ -58,11 +58,12 @@ type smtctx struct {
 	usedSpecs     map[string]bool
 	usedAxioms    map[string]bool
 	sortTypes     map[string]types.Type
+	objNames      map[string]bool // terms known to denote whole objects (allocation results)
 }
 
 func newSMT(w *world) *smtctx {
 	return &smtctx{w: w, declaredSorts: map[string]bool{}, declared: map[string]bool{}, heapSorts: map[string]string{},
-		specDeclared: map[string]bool{}, unfolded: map[string]bool{}, usedSpecs: map[string]bool{}, usedAxioms: map[string]bool{}}
+		specDeclared: map[string]bool{}, unfolded: map[string]bool{}, usedSpecs: map[string]bool{}, usedAxioms: map[string]bool{}, objNames: map[string]bool{}}
 }
 
 func (c *smtctx) declConst(name, sort string) string {
@@ -112,13 +113,88 @@ func (c *smtctx) unsup(s string) {
 
 // ---- heap keys
 
-// cellKey returns the heap array holding cells of leaf type t and makes sure its sort is known.
+// Heap arrays. A struct field lives in the array of that field ("F_<struct>_<field>", indexed by the field's
+// address); every other cell (slice/array elements, boxed variables) lives in the array of its Go type
+// ("H_<type>"). Which array a cell belongs to is determined by the shape of its address.
+
+// cellKey returns the heap array holding non-field cells of leaf type t and makes sure its sort is known.
 func (c *smtctx) cellKey(t types.Type) string {
 	k := heapKey(t)
 	if _, ok := c.heapSorts[k]; !ok {
 		c.heapSorts[k] = fmt.Sprintf("(Array Ref %s)", c.sortOf(t))
 	}
 	return k
+}
+
+// fieldKeyByID returns the heap array of a struct field.
+func (c *smtctx) fieldKeyByID(fid int) (string, types.Type, bool) {
+	fi, ok := c.w.fieldByID[fid]
+	if !ok {
+		return "", nil, false
+	}
+	if _, ok := c.heapSorts[fi.key]; !ok {
+		c.heapSorts[fi.key] = fmt.Sprintf("(Array Ref %s)", c.sortOf(fi.typ))
+	}
+	return fi.key, fi.typ, true
+}
+
+// candidateFieldKeys: the field arrays that can hold a cell of leaf type t (for accesses through a pointer whose
+// provenance is unknown).
+func (c *smtctx) candidateFieldKeys(t types.Type) []int {
+	var out []int
+	for _, fid := range c.w.fieldIDsSorted() {
+		fi := c.w.fieldByID[fid]
+		if isLeaf(fi.typ) && types.Identical(fi.typ, t) {
+			out = append(out, fid)
+		}
+	}
+	return out
+}
+
+// addrShape classifies an address term: "fld" (with the field id), "cell" (element or object), "" (unknown).
+func (c *smtctx) addrShape(a string) (string, int) {
+	if strings.HasPrefix(a, "(fld ") {
+		i := strings.LastIndex(a, " ")
+		var fid int
+		if _, err := fmt.Sscanf(a[i+1:], "%d)", &fid); err == nil {
+			return "fld", fid
+		}
+	}
+	if strings.HasPrefix(a, "(selem ") || strings.HasPrefix(a, "(elem ") {
+		return "cell", 0
+	}
+	if c.objNames[a] {
+		return "cell", 0
+	}
+	return "", 0
+}
+
+// leafKeys: the arrays in which the leaf cell of type t at address a may live: a single key when the address shape
+// is known, otherwise all candidates with the condition selecting each.
+type keyAlt struct {
+	key  string
+	cond string // "" = unconditional
+}
+
+func (c *smtctx) leafKeys(a string, t types.Type) []keyAlt {
+	switch shape, fid := c.addrShape(a); shape {
+	case "fld":
+		if k, _, ok := c.fieldKeyByID(fid); ok {
+			return []keyAlt{{k, ""}}
+		}
+	case "cell":
+		return []keyAlt{{c.cellKey(t), ""}}
+	}
+	var alts []keyAlt
+	var conds []string
+	for _, fid := range c.candidateFieldKeys(t) {
+		k, _, _ := c.fieldKeyByID(fid)
+		cond := fmt.Sprintf("(and (is_fld %s) (= (fid %s) %d))", a, a, fid)
+		alts = append(alts, keyAlt{k, cond})
+		conds = append(conds, cond)
+	}
+	alts = append(alts, keyAlt{c.cellKey(t), not(or(conds...))})
+	return alts
 }
 
 func mapKeyBase(t types.Type) string {
@@ -226,7 +302,15 @@ func (c *smtctx) loadAt(st *state, a string, t types.Type) string {
 		c.unsup("load of array value " + t.String())
 		return c.freshConst("arr", c.sortOf(t))
 	}
-	return fmt.Sprintf("(select %s %s)", c.heapGet(st, c.cellKey(t)), a)
+	alts := c.leafKeys(a, t)
+	if len(alts) == 1 {
+		return fmt.Sprintf("(select %s %s)", c.heapGet(st, alts[0].key), a)
+	}
+	res := fmt.Sprintf("(select %s %s)", c.heapGet(st, alts[len(alts)-1].key), a)
+	for i := len(alts) - 2; i >= 0; i-- {
+		res = fmt.Sprintf("(ite %s (select %s %s) %s)", alts[i].cond, c.heapGet(st, alts[i].key), a, res)
+	}
+	return res
 }
 
 // storeAt writes value v of Go type t at address a.
@@ -242,8 +326,14 @@ func (c *smtctx) storeAt(st *state, a string, t types.Type, v string) {
 		c.unsup("store of array value " + t.String())
 		return
 	}
-	k := c.cellKey(t)
-	st.heap[k] = fmt.Sprintf("(store %s %s %s)", c.heapGet(st, k), a, v)
+	for _, alt := range c.leafKeys(a, t) {
+		H := c.heapGet(st, alt.key)
+		if alt.cond == "" {
+			st.heap[alt.key] = fmt.Sprintf("(store %s %s %s)", H, a, v)
+		} else {
+			st.heap[alt.key] = fmt.Sprintf("(ite %s (store %s %s %s) %s)", alt.cond, H, a, v, H)
+		}
+	}
 }
 
 // ---- prelude and script assembly
